@@ -16,11 +16,11 @@ LEVEL_TEXT = ('Lean 4 theorems: Noll j -> (n, m) is valid (|m| <= n, n-|m| even,
               'parts are orthogonal with norm 1/(2(n+1)) for all n, n\' <= 20 (exact rational tables, decide +kernel); Noll\'s constants '
               'sqrt(n+1), sqrt(2) give unit mean square (angular integrals of 1, cos^2(m theta), sin^2(m theta) over a period evaluated in Mathlib); the default origin is the mask centroid (first '
               'moments vanish) for any parity/position; rho = 1 at the farthest masked sample and <= 1 on the mask; values vanish '
-              'outside the mask and depend on the mask only through its support. PARTIAL: |Z| <= 1 without normalisation and the '
-              'azimuthal cross-orthogonality (different m, cos vs sin) are not proved; the radial Gram table stops at n = 20 (first 231 modes).')
+              'outside the mask and depend on the mask only through its support. azimuthal factors of different order and cos vs sin are orthogonal over a period. PARTIAL: |Z| <= 1 without '
+              'normalisation and the polar Fubini step combining radial and angular integrals are not proved; the radial Gram table stops at n = 20.')
 LEVEL_NOTE = ('Trusted: Lean kernel, float sqrt/cos/sin/atan2 (model run at Float, tolerance 1e-9 x coefficient scale), NumPy semantics of '
               'np.angle/np.abs/np.max as modelled, generator coverage. Unproven clauses: |Z| <= 1 unnormalised (sampled by the oracle); '
-              'azimuthal orthogonality between different m and between cos/sin of equal m (integrated numerically by the oracle); radial orthogonality beyond n = 20; '
+              'polar Fubini step (disk integral = radial x angular); radial orthogonality beyond n = 20; '
               'the float sqrt/ceil row search of zernike_index beyond the sampled range of j.')
 TECHNIQUE = 'Lean 4 proof (omega/induction, decide +kernel exact rational tables) + hand model with differential correspondence'
 GEN = []
@@ -33,8 +33,9 @@ RULE = ('cases: every Noll index 1..861 (all 41 rows n <= 40) against zernike_in
 TRUSTED = ['libm sqrt/cos/sin/atan2 agree with NumPy to 1e-9', 'np.angle = atan2(imag, real), np.abs = hypot, np.max over r*mask as modelled in Model/Zernike.lean']
 UNPROVEN = ['|Z_j| <= 1 on the unit disk without normalisation (needs |R_n^m| <= 1 on [0,1]); sampled by the oracle on dyadic nodes',
             'radial orthogonality for 20 < n <= 40 (the exact table checks in Lean but takes ~5 min; not part of the registered build)',
-            'vanishing cross products of modes with different azimuthal order, or cos vs sin of the same order (integral of cos(m t)cos(m\' t), cos(m t)sin(m t) over a period = 0): '
-            'not proved; the oracle integrates products of the real modes j, j\' <= 66 by exact Gauss-Legendre x uniform-angle quadrature']
+            'the factorisation of the mean over the unit disk of a product of two modes into (radial integral) x (angular integral)/pi (Fubini in polar '
+            'coordinates) is not formalised: radial_gram and the angular theorems are proved separately; the oracle integrates products of the real '
+            'modes j, j\' <= 66 by exact Gauss-Legendre x uniform-angle quadrature']
 ASSUMPTIONS = ['the quantifier "all Noll indices up to a large bound" is carried for all j >= 1 on the index map and for n <= 40 (j <= 861) on the '
                'radial tables; beyond n = 40 the float evaluation of R cancels catastrophically',
                'azimuthal convention as coded: even j -> cos(m theta), odd j -> sin(m theta) with m < 0 (i.e. -sin(|m| theta))']
